@@ -240,6 +240,23 @@ func (l layout) message(r *rand.Rand, som byte, serial []byte, def string, class
 	return m
 }
 
+// slackOffsets: the payload positions (0-based, 8..63) that belong to no field of the (TLC-exported) layout
+func (l layout) slackOffsets() []int {
+	used := map[int]bool{}
+	for _, f := range l.Fields {
+		for i := 0; i < width(f.Kind); i++ {
+			used[f.Off+i] = true
+		}
+	}
+	o := []int{}
+	for i := 8; i < 64; i++ {
+		if !used[i] {
+			o = append(o, i)
+		}
+	}
+	return o
+}
+
 func (l layout) fieldOffsets() []int {
 	o := []int{}
 	for _, f := range l.Fields {
